@@ -328,6 +328,8 @@ def judgeOutput (id : String) (fs : List String) (outs : List String) : String :
         -- per member: wire name by the Smithy table (spec) and by the translated serializer table (model)
         let wireOf := fun (tbl : Op → List Binding) (m : String) =>
           let (base, sub) := splitFirst m '.'
+          -- the streamed body (pseudo member and pseudo header `@body`, hex)
+          if m == "@body" then some "@body" else
           match (tbl op).find? (fun b => bytesToString b.member == normName base) with
           | some b => if b.loc == .header then some (bytesToString b.wire)
                       else if b.loc == .pfx then some (bytesToString b.wire ++ sub) else none
